@@ -36,6 +36,17 @@ Definition chk_sort (c : sort_case) : bool :=
   Nat.eqb (length impl) (length model) && layers_match model impl && nodup_nat flat &&
   Nat.eqb (length flat) (match mx with None => n | Some m => Nat.min m n end).
 
+(* compute_epsilon_net: n, the greedy order recovered from the implementation's ranks
+   (order[r] = the item with rank r), the implementation's ranks. The model, with the
+   float-valued choices replayed from that order, must return the same ranks and order. *)
+Definition epsnet_case := (nat * list nat * list nat)%type.
+Definition chk_epsnet (c : epsnet_case) : bool :=
+  let '(n, order, ranks) := c in
+  let seed := hd O order in
+  list_eqb Nat.eqb (epsilon_net_order seed (choose_replay order) n) order &&
+  list_eqb Nat.eqb (compute_epsilon_net seed (choose_replay order) n) ranks &&
+  same_set_nat ranks (seq 0 n).
+
 (* MOASHA sequence: rf, max_t, initial brackets, priority table, events
    (bracket index, trial, cur_iter, metrics (already signed), implementation decision, is-on_trial_complete);
    an on_trial_complete event has no decision (the field is ignored) *)
@@ -146,7 +157,7 @@ def brute_layers(X):
 
 def run(ctx, replay=None):
     from syne_tune.optimizer.schedulers.multiobjective.non_dominated_priority import (
-        pareto_efficient, nondominated_sort)
+        pareto_efficient, nondominated_sort, compute_epsilon_net)
     ctx.rule = ("cases: random objective matrices (N 0..40, D 1..5; integer grids forcing ties, duplicates, floats), "
                 "non-dominated sorts with dim/max_items, and MOASHA report sequences; non-trivial = a matrix with at "
                 "least one tie or duplicate row and at least one dominated point, or a MOASHA sequence with a "
@@ -230,6 +241,38 @@ def run(ctx, replay=None):
         for i in ctx.coq_bad_cases("sort", IMPORTS, PRELUDE, "chk_sort", scases):
             ctx.violation("correspondence", "model nondominated_sort layers differ from implementation", case=smeta[i],
                           failing_input=False, broken="correspondence chk_sort (model/Pareto.v nd_layers)")
+
+    # ---------------- compute_epsilon_net --------------------------------------
+    ecases, emeta = [], []
+    nets = []
+    if replay and replay.get("kind") == "epsnet":
+        nets = [(np.array(replay["X"], dtype=float).reshape(replay["shape"]), replay["dim"])]
+    elif not replay:
+        for _ in range(ctx.n(150, 2000)):
+            X, style = gen_matrix(rng, nmax=14)
+            if X.shape[0] == 0:
+                continue
+            nets.append((X, rng.choice([None, 0, rng.randrange(X.shape[1])])))
+    for X, dim in nets:
+        n = X.shape[0]
+        case = dict(kind="epsnet", X=X.tolist(), shape=list(X.shape), dim=dim)
+        np.random.seed(rng.randrange(2 ** 31))
+        with np.errstate(all="ignore"):
+            ranks = [int(r) for r in compute_epsilon_net(X.copy(), dim=dim)]
+        ctx.count(("epsnet", X.tolist(), dim), nontrivial=n >= 3)
+        ctx.h("epsnet_items", min(n, 10))
+        if sorted(ranks) != list(range(n)):
+            ctx.violation("property", "compute_epsilon_net returned %s: not a permutation of 0..%d, so "
+                          "nondominated_sort repeats or drops an index of the layer" % (ranks, n - 1),
+                          case=case, signature=dict(function="compute_epsilon_net"))
+            continue
+        order = [ranks.index(r) for r in range(n)]
+        ecases.append("(%s, %s, %s)" % (natlit(n), lst([natlit(i) for i in order]), lst([natlit(i) for i in ranks])))
+        emeta.append(dict(case, impl_ranks=ranks))
+    if ecases:
+        for i in ctx.coq_bad_cases("epsnet", IMPORTS, PRELUDE, "chk_epsnet", ecases):
+            ctx.violation("correspondence", "model compute_epsilon_net differs from implementation", case=emeta[i],
+                          failing_input=False, broken="correspondence chk_epsnet (model/Pareto.v compute_epsilon_net)")
 
     # ---------------- MOASHA sequences ---------------------------------------
     moasha_sequences(ctx, replay)
